@@ -29,7 +29,7 @@ from vf.gen import graphast as G
 
 PROP_ID = 'C14'
 LEVEL = 'exploration'
-BUDGET = {'quick': 8000, 'thorough': 300000}
+BUDGET = {'quick': 6000, 'thorough': 250000}
 RULE = (
     'Hypothesis draws a graph AST: 2-6 tasks (plain names, or 30 % of cases '
     'names with - + % @ and prefix-related pairs), each with a consistent '
@@ -42,10 +42,10 @@ RULE = (
     '(chain split into pairs, whitespace, comments, continuation lines before/'
     'after =>, &, |, duplicated lines, shuffled lines); rendering 0 is the '
     'canonical one-line-per-chain form, rendering 1 the all-pairs form.  Every '
-    'case also damages one line in one of 14 documented ways (half of them '
+    'case also damages one line in one of 16 documented ways (half of them '
     'moved to the last line) and expects GraphParseError, and, where some '
     'output is declared at two places, flips one ? to get an optionality '
-    'conflict (chain and pair renderings must both reject); 1 case in 15 (by '
+    'conflict (chain and pair renderings must both reject); 1 case in 30 (by '
     'hash of the AST) also goes through WorkflowConfig.  Non-trivial = the AST has a chain of >= 3 '
     'nodes or a rendering used a continuation line or an optional mark is '
     'present, and >= 3 distinct rendered texts were compared.  Distinct = by '
@@ -221,7 +221,9 @@ def _chain(draw, names, allowed, exotic):
                 node = draw(_tree(atoms))
                 if not G.is_atom(node) and draw(st.integers(0, 4)) == 2:
                     node = [node[0] + 'p'] + node[1:]
-                if draw(st.integers(0, 7)) == 3 and not _has_or(node):
+                if (draw(st.integers(0, 7)) == 3 and not _has_or(node)
+                        and not any(a.get('q') in ('finish', 'finished')
+                                    for a in _atoms(node))):
                     xa = {'x': 'x0'}
                     if G.is_atom(node):
                         node = ['&', xa, node]
@@ -522,6 +524,7 @@ MAL_KINDS = [
     'double-arrow', 'open-paren', 'missing-operator', 'rhs-only-offset',
     'or-on-right', 'suicide-on-left', 'qualifier-before-offset',
     'finish-optional', 'expire-required', 'null-operand',
+    'bare-suicide-mark', 'malformed-parameter',
 ]
 
 
@@ -606,6 +609,26 @@ def malform(chains, kind, sel):
             return None
         i, j = pos[sel % len(pos)]
         lines[i][j] = '!' + lines[i][j]
+        return text(lines), i
+    if kind == 'bare-suicide-mark':
+        pos = positions(lambda i, j, t, toks: t == '=>'
+                        and '=>' not in toks[j + 1:])
+        if not pos:
+            return None
+        i, j = pos[sel % len(pos)]
+        if sel % 2:
+            lines[i] = lines[i][:j + 1] + ['!']
+        else:
+            lines[i] = lines[i] + ['&', '!']
+        return text(lines), i
+    if kind == 'malformed-parameter':
+        pos = positions(lambda i, j, t, toks: isatom(t)
+                        and t[0] not in '!@')
+        if not pos:
+            return None
+        i, j = pos[sel % len(pos)]
+        bad = ['<+>', '<-1>', '<=1>', '<,>'][(sel // 2) % 4]
+        lines[i][j] = 'zz' + bad + lines[i][j]
         return text(lines), i
     # atom-level damage: work on the AST of one chain
     flat = [(ci, ni, a) for ci, ch in enumerate(chains)
@@ -728,11 +751,12 @@ def err_bucket(exc):
 def parse(text):
     """-> ('ok', parser) | ('reject', exc) | ('crash', exc)."""
     from cylc.flow.graph_parser import GraphParser
-    from cylc.flow.exceptions import GraphParseError
+    from cylc.flow.exceptions import GraphParseError, ParamExpandError
     gp = GraphParser()
     try:
         gp.parse_graph(text)
-    except GraphParseError as exc:
+    except (GraphParseError, ParamExpandError) as exc:
+        # ParamExpandError: the documented error for <...> problems
         return 'reject', exc
     except RecursionError:
         raise
@@ -888,6 +912,12 @@ def optionality(got_req, model, tag=''):
 def check_case(case, ctx: Ctx) -> CaseResult:
     from vf.cylcutil import reset_globals
     reset_globals()
+    if 'atheris_text' in case:
+        # replay path of a text found by the Atheris driver
+        from vf.gen.c14_atheris import check_text
+        found, info = check_text(case['atheris_text'])
+        return CaseResult([Violation(s, d) for s, d in found],
+                          classes=['atheris-text'], info=info)
     chains = case['chains']
     viol = []
     classes = []
@@ -895,7 +925,7 @@ def check_case(case, ctx: Ctx) -> CaseResult:
     if model['problems']:
         # generator invariant; never expected
         return CaseResult([], inconclusive=True, classes=['gen-inconsistent'])
-    via_config = int(jhash(chains)[:8], 16) % 15 == 0
+    via_config = int(jhash(chains)[:8], 16) % 30 == 0
     infos = [{}, {}]
     texts = [render(chains, [], infos[0]), render(chains, 'pairs', infos[1])]
     for ints in case['renders']:
@@ -995,7 +1025,7 @@ def check_case(case, ctx: Ctx) -> CaseResult:
             st_, val = parse(bad)
             if st_ == 'crash':
                 viol.append(Violation(
-                    f'C14:malformed-wrong-exception:{kind}:' + exc_sig(val),
+                    'C14:wrong-exception:' + exc_sig(val),
                     f'{type(val).__name__}: {val}\ntext:\n{bad}'))
             elif st_ == 'ok':
                 sig = f'C14:malformed-accepted:{kind}'
@@ -1161,7 +1191,7 @@ def _check_config(case, chains, model, ctx):
     from cylc.flow.exceptions import CylcError
     from vf.cylcutil import load_config
     viol = []
-    streams = [[]] + case['renders'][:2]
+    streams = [[]] + case['renders'][:1]
     obs, texts = [], []
     for ints in streams:
         parts = render(chains, ints, split=True)
@@ -1182,6 +1212,16 @@ def _check_config(case, chains, model, ctx):
             continue
         obs.append(('ok', cfg))
     kinds = {o[0] for o in obs}
+    if 'reject' in kinds and any(
+            'Xtriggers cannot be used in conditional' in (o[1] or '')
+            for o in obs if o[0] == 'reject') and any(
+            any('x' in a for a in _atoms(ch[0])) and (
+                _has_or(ch[0]) or any(a.get('q') in ('finish', 'finished')
+                                      for a in _atoms(ch[0])))
+            for ch in chains):
+        # documented config-level restriction (finish is an implicit OR)
+        ctx.col.rejected += 1
+        return viol
     if 'reject' in kinds:
         i = [o[0] for o in obs].index('reject')
         viol.append(Violation(
@@ -1309,8 +1349,9 @@ def run_shard(ctx: Ctx):
     hyp_run(ctx, cases(), check_case, n)
     if ctx.tier == 'thorough':
         try:
-            from vf.gen import c14_atheris
-        except Exception as exc:      # atheris not installed
+            import atheris  # noqa: F401  (installed by setup.sh into .deps)
+        except Exception as exc:
             ctx.col.extra['atheris'] = f'skipped: {exc!r}'
             return
+        from vf.gen import c14_atheris
         c14_atheris.run(ctx)
